@@ -297,4 +297,4 @@ Definition Rep (st : hstate) (fs : state) : Prop :=
   hnextid st = nextid fs /\ (forall i, hget (hp st) i <> None -> In i (ids (root fs))).
 
 Lemma Rep_init : Rep hinit init.
-Proof. unfold Rep, hinit, init. cbn. repeat split; auto. intros i H. apply H. reflexivity. Qed.
+Proof. unfold Rep, hinit, init. cbn. repeat split; auto. Qed.
